@@ -218,7 +218,7 @@ class Model(object):
 
         if kind == 'open':
             flavour, peer_hold = ev[1], ev[2]
-            errsub = {'badver': 1, 'badas': 2, 'h1': 6, 'h2': 6}.get(flavour)
+            errsub = {'badver': 1, 'badas': 2, 'badas4': 2, 'h1': 6, 'h2': 6}.get(flavour)
             if s == 'OPENSENT':
                 if errsub is None:
                     return [Outcome(('OPENCONFIRM',), [KA], apply=self._to_openconfirm(now, peer_hold),
